@@ -87,7 +87,9 @@ func solveReports(reps []*FuncReport, dir string, timeout time.Duration, par int
 				defer wg.Done()
 				sem <- struct{}{}
 				defer func() { <-sem }()
+				emitMu.Lock()
 				file, n, err := vc.emit(o, sub, i)
+				emitMu.Unlock()
 				if err != nil {
 					rep.Results[i] = SolveResult{Status: "unknown", Output: err.Error()}
 					return
@@ -98,6 +100,20 @@ func solveReports(reps []*FuncReport, dir string, timeout time.Duration, par int
 				}
 				r := raceWith(firstPass, file, to)
 				r.Bytes = n
+				if r.Status != "unsat" && r.Status != "sat" && o.Expect != "sat" && (strings.Contains(o.Goal, "(forall ") || strings.Contains(o.Goal, "(exists ")) {
+					// second formulation of a quantified goal (see emitVariant)
+					emitMu.Lock()
+					file2, n2, err2 := vc.emitVariant(o, sub, i, 1)
+					emitMu.Unlock()
+					if err2 == nil {
+						r2 := raceWith(firstPass, file2, to)
+						if r2.Status == "unsat" {
+							r2.Bytes = n2
+							r2.Solver += " (plain goal)"
+							r = r2
+						}
+					}
+				}
 				rep.Results[i] = r
 			}(i, o)
 		}
@@ -131,6 +147,8 @@ func solveReports(reps []*FuncReport, dir string, timeout time.Duration, par int
 	}
 	wg.Wait()
 }
+
+var emitMu sync.Mutex
 
 func solveAll(rep *FuncReport, dir string, timeout time.Duration, par int) {
 	solveReports([]*FuncReport{rep}, dir, timeout, par)
